@@ -624,13 +624,20 @@ func posStructType(p *Positional) reflect.Type {
 // command whose by-tag sub-commands and positional struct live in this struct.
 func (bl *builder) groupType(g *Group, host *Cmd) reflect.Type {
 	var fs []reflect.StructField
+	// untagged fields are declared partly before and partly after the options
 	for i := range g.Plain {
-		p := &g.Plain[i]
-		fs = append(fs, reflect.StructField{Name: p.Field, Type: plainType(p.Kind)})
+		if p := &g.Plain[i]; i%2 == 0 {
+			fs = append(fs, reflect.StructField{Name: p.Field, Type: plainType(p.Kind)})
+		}
 	}
 	for i := range g.Options {
 		o := &g.Options[i]
 		fs = append(fs, reflect.StructField{Name: o.Field, Type: o.Kind.Type(), Tag: reflect.StructTag(o.Tag())})
+	}
+	for i := range g.Plain {
+		if p := &g.Plain[i]; i%2 == 1 {
+			fs = append(fs, reflect.StructField{Name: p.Field, Type: plainType(p.Kind)})
+		}
 	}
 	for i := range g.Groups {
 		sg := &g.Groups[i]
